@@ -188,11 +188,11 @@ type fakeRows struct {
 }
 
 func (fakeDriver) Open(name string) (driver.Conn, error) { return fakeConn{}, nil }
-func (fakeConn) Prepare(q string) (driver.Stmt, error)    { return &fakeStmt{q}, nil }
-func (fakeConn) Close() error                             { return nil }
-func (fakeConn) Begin() (driver.Tx, error)                { return nil, errors.New("no transactions") }
-func (s *fakeStmt) Close() error                          { return nil }
-func (s *fakeStmt) NumInput() int                         { return -1 }
+func (fakeConn) Prepare(q string) (driver.Stmt, error)   { return &fakeStmt{q}, nil }
+func (fakeConn) Close() error                            { return nil }
+func (fakeConn) Begin() (driver.Tx, error)               { return nil, errors.New("no transactions") }
+func (s *fakeStmt) Close() error                         { return nil }
+func (s *fakeStmt) NumInput() int                        { return -1 }
 func (s *fakeStmt) Exec(args []driver.Value) (driver.Result, error) {
 	if s.q == "VRT APPEND" {
 		nativeTable.insert(args[0].(string), asset.Snapshot{Date: args[1].(time.Time), Open: args[2].(float64), High: args[3].(float64),
